@@ -54,6 +54,10 @@ EXPLANATION += (
     'kinds of entry.'
 )
 
+EXPLANATION += (
+    ' Round 5: path-bearing messages are not raised as KeyError, whose repr rendering hides the path from the sanitiser (R-ROLE/path-in-message/rendered-as-text); settings are forwarded (R-FWD).'
+)
+
 RULE_TEXT = (
     "one obligation per emitted value (config, log, log file, module), "
     "per removed key, per path interpolation site")
@@ -79,6 +83,10 @@ def check(ctx):
     check_otf(ctx)
     check_metadata_module(ctx)
     check_messages(ctx, pa)
+    # settings this property depends on are handed down every call
+    # chain, never left to a callee's default (sa/rules/forwarding.py)
+    from ..rules.forwarding import check_forwarding
+    check_forwarding(ctx, {'cloud_safe', 'log'})
 
 
 def _assume_cloud_safe(e, env):
@@ -563,6 +571,7 @@ def check_messages(ctx, pa):
                                    'character, is not recognised as an '
                                    'existing path, and the absolute path '
                                    'reaches the log / traceback')
+                            _check_rendered_as_text(ctx, fi, node, part)
                         prev_text = 'x'      # something non-empty follows
             elif isinstance(node, ast.BinOp) and isinstance(
                     node.op, ast.Add):
@@ -599,6 +608,51 @@ def check_messages(ctx, pa):
     if n_interp < 3:
         raise AnalysisError('path interpolation scan found only '
                             f'{n_interp} sites')
+
+
+REPR_RENDERED = ('KeyError',)
+
+
+def _check_rendered_as_text(ctx, fi, joined, part):
+    """a message with a path in it reaches the log through the traceback;
+    the sanitiser recognises the path as a whitespace-delimited word.
+    KeyError renders its argument with repr(): line breaks become the two
+    characters backslash-n and the text is wrapped in quotes, so a path on
+    a line of its own is no longer a word and is not replaced."""
+    p_ = getattr(joined, '_parent', None)
+    while p_ is not None and not isinstance(
+            p_, (ast.Raise, ast.stmt)):
+        p_ = getattr(p_, '_parent', None)
+    if not isinstance(p_, ast.Raise) or not isinstance(p_.exc, ast.Call):
+        return
+    cls = p_.exc.func
+    name = cls.id if isinstance(cls, ast.Name) else (
+        cls.attr if isinstance(cls, ast.Attribute) else None)
+    if name is None:
+        return
+    # a class of the package deriving from KeyError renders the same way
+    bad = name in REPR_RENDERED
+    ci = None
+    try:
+        from ..core.resolve import resolve_name_in_module
+        from ..core.loader import ClassInfo
+        ci = resolve_name_in_module(ctx.db, fi.module, name)
+        if isinstance(ci, ClassInfo):
+            for c in ctx.db.mro(ci):
+                for b in c.node.bases:
+                    if isinstance(b, ast.Name) and b.id in REPR_RENDERED:
+                        bad = True
+    except Exception:
+        pass
+    key = (f'{fi.qual}:#{joined.values.index(part)}@{_ctx_text(joined)}')
+    ctx.ob('R-ROLE/path-in-message/rendered-as-text', key,
+           fi.loc(p_), not bad,
+           f'{name} renders its message as text' if not bad else
+           f'`raise {name}(...)` carries the path '
+           f'`{unparse(part.value)}`, but {name} prints repr(message): '
+           'line breaks and quotes around the path become literal '
+           'characters, the sanitiser no longer sees the path as a word, '
+           'and it reaches the log')
 
 
 def _start_ok(joined):
